@@ -1,7 +1,7 @@
 (* ApiDiv.v — correspondence entry points for C02.  Definitions only.
    A division by zero is printed as the empty byte string (the DivByZero tag). *)
 From Coq Require Import ZArith List Bool.
-From Mpir Require Import Word Limbs MpnBasicDefs MpzDefs DivDefs ApiBasic DcDivDefs.
+From Mpir Require Import Word Limbs MpnBasicDefs MpzDefs DivDefs ApiBasic DcDivDefs SbDivDefs.
 Import ListNotations.
 From MpirGen Require Import Gen_Tables.
 Local Open Scope Z_scope.
@@ -94,3 +94,7 @@ Definition api_mpn_dc_div_qr_n : api := fun t =>
   let n := argz t 0 in
   let '(qh, q, r) := dc_div_qr_n exact_basediv 64 4 (Z.max 6 thr_DC_DIV_QR_THRESHOLD) n (argz t 1) (argz t 2) in
   [TZ qh; TZ q; TZ r].
+
+(* mpn_sb_div_qr nn N dn D : the schoolbook model (3-by-2 estimate per quotient limb, add-back) *)
+Definition api_mpn_sb_div_qr : api := fun t =>
+  let '(qh, q, r) := sb_div_qr (argz t 0) (argz t 2) (argz t 1) (argz t 3) in [TZ qh; TZ q; TZ r].
